@@ -268,12 +268,24 @@ def sweep(run, prop, per_fn, budget_ms):
 
 def report(run, prop, fns, cases, outs, viol, extra_known=None):
     """known findings are keyed by (function, class); everything else is a violation with its replay"""
-    known = {k["id"]: k for k in vlib.known_findings(prop)}
+    known = vlib.known_findings(prop)
+
+    def matches(k, c, cls):
+        m = k.get("match", {})
+        if m.get("function") != c["fn"] or m.get("class") != cls:
+            return False
+        a = m.get("arg")
+        if a:       # narrower entry: only calls whose argument <kw> is an integer >= min
+            vals = [int_val(x[1]) for x in c["args"] if x[0] == a["kw"]]
+            return bool(vals) and vals[0] is not None and vals[0] >= a["min"]
+        return True
+
     reported = set()
     for i, cls in viol:
         fid = finding_id(prop, cls, cases[i]["fn"])
-        if fid in known:
-            run.known(fid, known[fid]["what"])
+        hit = [k for k in known if matches(k, cases[i], cls)]
+        if hit:
+            run.known(hit[0]["id"], hit[0]["what"])
             continue
         if fid in reported or len(reported) >= 5:
             continue
